@@ -209,8 +209,17 @@ func TestC13(t *testing.T) {
 				script = append(script, "s"+hx(uint64(cnt)))
 				rem = append(rem, cnt)
 			case c < 5 && len(rem) > 1:
-				script = append(script, "u")
-				rem = rem[:len(rem)-1]
+				if g.r.Intn(3) == 0 {
+					// back to the parent, telling it how far the child has read
+					// (UpdateIndexFromScoped: the child's index is added to the parent's)
+					script = append(script, "U")
+					rem = rem[:len(rem)-1]
+					// the parent's remaining scope shrinks by what the child consumed; the
+					// generator does not track that exactly (reads may then fail, which is fine)
+				} else {
+					script = append(script, "u")
+					rem = rem[:len(rem)-1]
+				}
 			default:
 				q := 0
 				if top > 0 {
@@ -251,6 +260,12 @@ func TestC13(t *testing.T) {
 					cur = stack[len(stack)-1]
 					stack = stack[:len(stack)-1]
 					parts = append(parts, "up")
+				case 'U':
+					child := cur
+					cur = stack[len(stack)-1]
+					stack = stack[:len(stack)-1]
+					cur.UpdateIndexFromScoped(child)
+					parts = append(parts, "up"+hx(cur.Index()))
 				default:
 					c, _ := strconv.ParseUint(q[1:], 16, 64)
 					p := make([]byte, c)
